@@ -61,7 +61,7 @@ Proof. vm_compute. split; reflexivity. Qed.
 (* ------------------------------------------------------------------------------------------------------
    Added in build session 4 (statements re-stated from the proof files by harness tooling; each is closed by
    exact). *)
-From SplipyModel Require Import Proofs.SeamContinuity Proofs.MakePeriodicKnots.
+From SplipyModel Require Import Proofs.SeamContinuity Proofs.MakePeriodicKnots Transfer.ParamObj Transfer.ParamOps Transfer.ParamOps2.
 Open Scope R_scope.
 Theorem C08_seam_derivatives :
   forall k : nat -> R,
@@ -216,4 +216,16 @@ Theorem C08_split_opens_at_seam :
          let kk := b_knots (basis_roll bI mu) in firstn (length kk - b_per1 bI) kk = open_knots p s e mid.
 Proof. exact @split_opens_at_seam. Qed.
 Print Assumptions C08_split_opens_at_seam.
+
+Theorem C08_executed_is_proved_make_periodic :
+  forall (o : obj Q) (cont : Z) (d : nat),
+         resmap objQ2R (obj_make_periodic o cont d) = obj_make_periodic (objQ2R o) cont d.
+Proof. exact @obj_make_periodic_transfer. Qed.
+Print Assumptions C08_executed_is_proved_make_periodic.
+
+Theorem C08_executed_is_proved_lower_periodic :
+  forall (fuel : nat) (o : obj Q) (per1_target d : nat),
+         resmap objQ2R (obj_lower_periodic fuel o per1_target d) = obj_lower_periodic fuel (objQ2R o) per1_target d.
+Proof. exact @obj_lower_periodic_transfer. Qed.
+Print Assumptions C08_executed_is_proved_lower_periodic.
 
